@@ -28,6 +28,7 @@ import (
 	"unicode/utf8"
 
 	"github.com/zclconf/go-cty/cty"
+	"github.com/zclconf/go-cty/cty/convert"
 	"github.com/zclconf/go-cty/cty/ctystrings"
 	"github.com/zclconf/go-cty/cty/msgpack"
 	"golang.org/x/text/unicode/norm"
@@ -896,6 +897,10 @@ func c16Case(ctx *Ctx, v cty.Value, ct cty.Type, tag string) {
 	p, why := try(func() { b, err = msgpack.Marshal(v, ct) })
 	conforms := len(v.Type().TestConformance(ct)) == 0
 	oracle, oracleOK := c16Oracle(v)
+	if !oracleOK {
+		ctx.Tag("skip:safe-prefix-oracle-not-utf8")
+	}
+	c16d16Numbers(ctx, v)
 	impl := "err"
 	var tree *mpItem
 	switch {
@@ -914,6 +919,7 @@ func c16Case(ctx *Ctx, v cty.Value, ct cty.Type, tag string) {
 			tree = nil
 		} else {
 			impl = "ok " + tree.wire()
+			c16d16IntWidths(ctx, tree) // d16: family and width of every integer item (the wire form drops the width)
 			// self-check of the writer on what the library wrote (the library writes compactly)
 			if back := mpWrite(nil, tree); !bytes.Equal(back, b) {
 				ctx.Probe("mp-rewrite", false, fmt.Sprintf("%x rewritten as %x", b, back))
@@ -924,6 +930,21 @@ func c16Case(ctx *Ctx, v cty.Value, ct cty.Type, tag string) {
 	}
 	if oracleOK && (tree != nil || err != nil || p) {
 		ctx.Add("mp.marshal", impl, w, tw, oracle)
+		ctx.Add("d16.shape", "wf:true shape:true ok-or-err:true", w, tw, oracle) // d16: hypotheses of marshal_total_partial hold of every generated conforming value
+		if !conforms {
+			// d16: the convert.Convert path of Marshal.  A conversion that builds a set orders its members by the
+			// real hash: with a set type in sight both sides print every array with its members sorted.
+			if strings.Contains(tw, "(E ") || strings.Contains(encTy(v.Type()), "(E ") {
+				simpl := impl
+				if tree != nil {
+					simpl = "ok " + c16d16WireSorted(tree)
+				}
+				ctx.Add("d16.marshalc-sets", simpl, w, tw, oracle)
+			} else {
+				ctx.Add("d16.marshalc", impl, w, tw, oracle)
+			}
+			ctx.Tag("marshal-nonconforming:" + strings.SplitN(impl, " ", 2)[0])
+		}
 	}
 
 	if v.ContainsMarked() {
@@ -931,7 +952,15 @@ func c16Case(ctx *Ctx, v cty.Value, ct cty.Type, tag string) {
 		if p {
 			ctx.Fail(Failure{Site: "marked-rejected", Sig: "panic", What: "Marshal panicked on a marked value", Input: w + " " + tw, GoLit: lit, Outcome: why})
 		} else if err == nil {
-			ctx.Fail(Failure{Site: "marked-rejected", Sig: "accepted", What: "Marshal accepted a marked value", Input: w + " " + tw, GoLit: lit, Outcome: fmt.Sprintf("%x", b)})
+			sig := "accepted"
+			if !conforms {
+				// root cause: the type does not conform, Marshal converts first, and the conversion DROPS the part
+				// of the value that carries the mark (an attribute the target object type does not have)
+				if cv, cerr := convert.Convert(v, ct); cerr == nil && !cv.ContainsMarked() {
+					sig = "accepted:mark-only-in-part-dropped-by-conversion-to-constraint"
+				}
+			}
+			ctx.Fail(Failure{Site: "marked-rejected", Sig: sig, What: "Marshal accepted a marked value", Input: w + " " + tw, GoLit: lit, Outcome: fmt.Sprintf("%x", b)})
 		}
 		return
 	}
@@ -969,7 +998,11 @@ func c16Case(ctx *Ctx, v cty.Value, ct cty.Type, tag string) {
 	// the hypotheses of C16.roundtrip_covers must imply that the real round trip is fine
 	realOK := !dp && derr == nil && c16Approx(dec, v) == nil
 	if oracleOK {
-		ctx.Add("mp.fitsimp", encBool(realOK), w, tw, oracle, encBool(realOK))
+		fop := "mp.fitsimp" // the driver answers `unmodelled` (not compared) when the hypotheses do not hold
+		if strings.Contains(encTy(v.Type()), "(E ") {
+			fop = "mp.fitsimp-sets"
+		}
+		ctx.Add(fop, encBool(realOK), w, tw, oracle, encBool(realOK))
 	}
 	if dp || derr != nil {
 		out, sig := dwhy, "panic"
@@ -981,10 +1014,11 @@ func c16Case(ctx *Ctx, v cty.Value, ct cty.Type, tag string) {
 			strings.Contains(out, "elements must have the same type"):
 			// the decoder met members of different types (a panic of ListVal/SetVal/MapVal before /repo e63bbcc, an error since)
 			sig = "inconsistent-element-types:" + c16TypeSig(v, ct)
-		case c16InexactText(v) != "" && (strings.Contains(out, "bound") || strings.Contains(out, "invalid refinements")):
+		case c16d16InexactBound(v) != "" && (strings.Contains(out, "bound") || strings.Contains(out, "invalid refinements")):
 			// the decoded bounds are not the encoded ones, and no longer consistent with each other
-			// (a panic of the refinement builder before /repo 28caeac, an error since)
-			sig = "inconsistent-bounds:" + c16InexactText(v)
+			// (a panic of the refinement builder before /repo 28caeac, an error since); d16: the root cause must
+			// sit in a BOUND of an unknown number with TWO bounds, not in any number anywhere in the value
+			sig = "inconsistent-bounds:" + c16d16InexactBound(v)
 		case strings.Contains(out, "oversize unknown value refinement") && c16MaxRefinementText(v) > 900:
 			sig = "oversize-refinement-from-long-bound-text"
 		}
@@ -1041,8 +1075,28 @@ func c16Decode(ctx *Ctx, it *mpItem, ct cty.Type, tag string) {
 		return
 	}
 	ctx.Probe("mp-writer-readable", true, "")
-	if bad := mpHasBad(back); bad != "" || !c16StringsNormal(back) {
+	if bad := mpHasBad(back); bad != "" {
 		ctx.Tag("skip:decode-outside-item-model")
+		return
+	}
+	if !c16StringsNormal(back) {
+		// d16: strings that are not in NFC — the real normalisation travels as an oracle column
+		table, _, ok := c16d16NormTable(back)
+		if !ok {
+			ctx.Tag("skip:decode-non-nfc-bin")
+			return
+		}
+		ctx.Tag("decode-nfc:" + tag)
+		var dec cty.Value
+		var derr error
+		dp, _ := try(func() { dec, derr = msgpack.Unmarshal(b, ct) })
+		dimpl := "err"
+		if dp {
+			dimpl = "panic"
+		} else if derr == nil {
+			dimpl = "ok " + canonVal(dec)
+		}
+		ctx.Add("d16.unmarshaln", dimpl, back.wire(), encTy(ct), table)
 		return
 	}
 	ctx.Tag("decode:" + tag)
@@ -1368,6 +1422,10 @@ func c16Parse(ctx *Ctx, s string) {
 		impl = "ok " + cty.VerifDump(v)
 	}
 	ctx.Add("mp.parse", impl, encStr(s))
+	if strings.ContainsAny(s, "eEpP") {
+		ctx.Add("d16.parse", impl, encStr(s)) // d16: exponent spellings (unmodelled by mp.parse)
+		ctx.Tag("parse-exponent:" + strings.SplitN(impl, " ", 2)[0])
+	}
 }
 
 func runC16(ctx *Ctx) {
@@ -1395,7 +1453,13 @@ func runC16(ctx *Ctx) {
 	for _, s := range c16ParsePool {
 		c16Parse(ctx, s)
 	}
+	for _, s := range []string{"1.5e-3", "12e+2", "-2.5E2", "1e", "e5", "1e5e", "0e5", "-0e5", "1p-3", ".5e1", "5.e1", "1e400", "1e-400", "123456789e-30", "1e27", "1e28", "1e-27", "1e-28", "1e-248", "1e-249", "3e-300", "7e300", "1.e", ".e1", "1e+", "1e-", "1e1.5", "1_0e1", "1e1_0", "1.25p3", "1p+70", "1P-70", "0.1e1", "9007199254740993e-1", "1e0", "1e-0", "+1e2", "1e0000001", "1e1234567", "Infe1", "0x1p4"} {
+		c16Parse(ctx, s)
+	}
 	nHand := c16HandItems(ctx)
+	nHand += c16d16BB6(ctx)
+	c16d16NFCItems(ctx)
+	c16d16NonConforming(ctx)
 	// 1b. regression witnesses of the repaired findings with root cause whole-beyond-int64-shortest-text-inexact
 	// (they must pass), and the witnesses of the recorded ones that need two bounds
 	for _, w := range c16TwoBoundWitnesses() {
@@ -1522,6 +1586,15 @@ func runC16(ctx *Ctx) {
 		case 1:
 			c16Parse(ctx, fmt.Sprintf("%d.%0*d", r.Intn(200)-100, 1+r.Intn(40), r.Int63()))
 		case 2:
+			if r.Intn(2) == 0 {
+				// d16: a decimal literal with an exponent
+				m := fmt.Sprintf("%d", r.Int63n(1<<uint(1+r.Intn(62))))
+				if r.Intn(2) == 0 {
+					m += fmt.Sprintf(".%0*d", 1+r.Intn(30), r.Int63())
+				}
+				c16Parse(ctx, m+string("eEpP"[r.Intn(4)])+[]string{"", "+", "-"}[r.Intn(3)]+fmt.Sprintf("%d", r.Intn([]int{10, 40, 400, 3000}[r.Intn(4)])))
+				break
+			}
 			var sb strings.Builder
 			for k := r.Intn(6); k >= 0; k-- {
 				sb.WriteByte("0123456789.+-_e"[r.Intn(15)])
